@@ -259,12 +259,36 @@ impl Ctx {
         let chunk: u64 = 256;
         let chunks = (n + chunk - 1) / chunk;
         let next = AtomicU64::new(0);
+        // diagnostics only (CV_SLOW_SECS=n): print the tape of any case that has been running for more than n seconds
+        let slow_secs: u64 = std::env::var("CV_SLOW_SECS").ok().and_then(|v| v.parse().ok()).unwrap_or(0);
+        let current: Vec<Mutex<Option<(std::time::Instant, Vec<u32>, bool)>>> = (0..self.threads).map(|_| Mutex::new(None)).collect();
+        let done = std::sync::atomic::AtomicBool::new(false);
+        let tix = AtomicU64::new(0);
+        let finished = AtomicU64::new(0);
         std::thread::scope(|s| {
+            if slow_secs > 0 {
+                s.spawn(|| {
+                    while !done.load(Ordering::Relaxed) {
+                        std::thread::sleep(std::time::Duration::from_millis(500));
+                        for c in &current {
+                            let mut g = c.lock().unwrap();
+                            if let Some((t0, tape, reported)) = g.as_mut() {
+                                if !*reported && t0.elapsed().as_secs() >= slow_secs {
+                                    *reported = true;
+                                    eprintln!("SLOW CASE (stream {}): tape {:?}", stream, tape);
+                                }
+                            }
+                        }
+                    }
+                });
+            }
+            let (current, done, tix, finished) = (&current, &done, &tix, &finished);
             for _ in 0..self.threads {
                 // generous stacks: the reference evaluator and the builder recurse over the grammar (debug-sized
                 // frames in the `fast` profile)
                 let _ = std::thread::Builder::new().stack_size(256 << 20).spawn_scoped(s, || {
                     crate::run::install_panic_hook();
+                    let my = tix.fetch_add(1, Ordering::Relaxed) as usize;
                     let mut l = Local::default();
                     loop {
                         if self.stopped() {
@@ -279,7 +303,13 @@ impl Ctx {
                         let hi = ((c + 1) * chunk).min(n);
                         for _ in c * chunk..hi {
                             let tape = strat.new_tree(&mut runner).unwrap().current();
+                            if slow_secs > 0 {
+                                *current[my].lock().unwrap() = Some((std::time::Instant::now(), tape.clone(), false));
+                            }
                             let r = f(&tape, &mut l);
+                            if slow_secs > 0 {
+                                *current[my].lock().unwrap() = None;
+                            }
                             self.judge(&mut l, r);
                             if self.stopped() {
                                 break;
@@ -287,6 +317,9 @@ impl Ctx {
                         }
                     }
                     self.acc.lock().unwrap().merge(l);
+                    if finished.fetch_add(1, Ordering::Relaxed) + 1 == self.threads as u64 {
+                        done.store(true, Ordering::Relaxed);
+                    }
                 });
             }
         });
